@@ -16,5 +16,10 @@ Definition run_id (hp : hash_pick) (ty : ustring) (obj : list (ustring * pval)) 
   | None => "NOTYPE"%string
   end.
 
-Definition run_id_custom (hp : hash_pick) (ty : ustring) (contrib : list ustring) (obj : list (ustring * pval)) : string :=
-  show_id_result (gen_id (fun d => d) gen_hash_prefs hp ty contrib obj).
+(* stix2/custom.py : _custom_observable_builder -- `if id_contrib_props is None: id_contrib_props = []`,
+   then the class attribute _id_contributing_properties = id_contrib_props *)
+Definition custom_contrib (given : option (list ustring)) : list ustring :=
+  match given with None => [] | Some l => l end.
+
+Definition run_id_custom (hp : hash_pick) (ty : ustring) (given : option (list ustring)) (obj : list (ustring * pval)) : string :=
+  show_id_result (gen_id (fun d => d) gen_hash_prefs hp ty (custom_contrib given) obj).
